@@ -214,3 +214,28 @@ func H_C04_par() {
 	assert(s.anyDirtyOffset, "the save flag is raised")
 	cover("par")
 }
+
+// H_C04_openrange: the assigned range as the real Open() computes it from the
+// discovery result: acknowledgements for the vBuckets just outside either end
+// are ignored, those inside count.
+func H_C04_openrange() {
+	fx := vNewFixture(func() []uint16 { return []uint16{1, 2} })
+	fx.cl.high = [vTotalVB]uint64{^uint64(0), ^uint64(0), ^uint64(0), ^uint64(0)}
+	fx.s.Open()
+	vb := uint16(choose("vb", 4))
+	ev := vOffset("ev")
+	assume(ev.SeqNo > 0)
+	tracked := len(fx.fc.tracked)
+	fx.s.listen(models.ListenerArgs{Event: models.DcpMutation{DcpMutation: vMutation(vb, ev.SeqNo, []byte("k")), Offset: ev}})
+	fx.fc.consumed[0].Ack()
+	cur, ok := fx.s.offsets.Load(vb)
+	_, dok := fx.s.dirtyOffsets.Load(vb)
+	if vb == 1 || vb == 2 {
+		cover("owned")
+		assert(ok && cur == ev && dok, "an acknowledgement for an owned vBucket counts")
+	} else {
+		cover("neighbour")
+		assert(!ok && !dok, "no checkpoint entry is created for the vBucket just outside the assigned range")
+		assert(len(fx.fc.tracked) == tracked, "the offset tracker is not told about it")
+	}
+}
